@@ -3,7 +3,7 @@ CONSTANTS
   Fams = {"counter"}
   Forms = {"clo"}
   Sites = {"top"}
-  Ns = {2}
+  Ns = {1}
   Reps = {1}
   Lock = FALSE
 INVARIANTS Deterministic
